@@ -8,6 +8,7 @@
 #define SPECTRA_SPARSE_SYM_MAT_PROD_H
 
 #include <Eigen/Core>
+#include <stdexcept>
 #include <Eigen/SparseCore>
 
 namespace Spectra {
@@ -62,6 +63,9 @@ public:
         static_assert(
             static_cast<int>(Derived::PlainObject::IsRowMajor) == static_cast<int>(SparseMatrix::IsRowMajor),
             "SparseSymMatProd: the \"Flags\" template parameter does not match the input matrix (Eigen::ColMajor/Eigen::RowMajor)");
+
+        if (mat.rows() != mat.cols())
+            throw std::invalid_argument("SparseSymMatProd: matrix must be square");
     }
 
     ///
